@@ -2,6 +2,7 @@ import GixModel.Lemmas.C36
 import GixModel.Lemmas.C36Multi2
 import GixModel.Lemmas.C36NoPath
 import GixModel.Lemmas.C36Path2
+import GixModel.Lemmas.C36Lead
 /-
 C36 — Wildcard matching agrees with git's wildmatch.  PROPERTY THEOREMS ONLY.
 
@@ -135,6 +136,80 @@ theorem pathmode_eq (m : Mode) (hpm : m.noMatchSlash = true) (p t : Bytes) (hok 
   · rw [h]; cases dowild (flagsOf m) (p.length + 1) none p t <;> rfl
   · rw [h1]
     cases hg : go m (p.length + 1) 63 p t ⟨0, p⟩ ⟨0, t⟩ <;> first | rfl | exact absurd hg h2
+
+/-- The patterns of tier 3: a run of two or more stars at the very start, a plain `/` behind it, and
+a rest `y` in which no further run of stars is a `**/` boundary (`okDSaux (some 47) y`; the look-behind
+of `y` is that `/`). Examples: `**/foo`, `***/a*/[bc]**d/**`. -/
+def LeadingDoubleStarOk (p : Bytes) : Bool :=
+  match p with
+  | 42 :: 42 :: r =>
+    match r.dropWhile (· == 42) with
+    | 47 :: y => okDSaux (some 47) y
+    | _ => false
+  | _ => false
+
+/-- T4-path tier 3 (a leading `**/`): in path mode, for every pattern `**/y` as above with fewer than
+64 star bytes and every text, `wildmatch` gives git's answer. gitoxide first tries `y` on the whole
+text and then lets the stars cross slashes; git does the same; their recursive calls are related by
+`pathmode_eq`'s induction and git's ABORT_ALL from them is suffix-sound (`abort_all_sound_path`). -/
+theorem pathmode_leading_eq (m : Mode) (hpm : m.noMatchSlash = true) (p t : Bytes) (hok : PatOk m p)
+    (hds : LeadingDoubleStarOk p = true) (hcnt : (p.filter (· == 42)).length < 64) (ht : NoNul t) :
+    C36.wildmatch m p t = Spec.C36.wildmatch (flagsOf m) p t := by
+  unfold LeadingDoubleStarOk at hds
+  split at hds
+  · rename_i r
+    split at hds
+    · rename_i y hx
+      obtain ⟨kx, hkx⟩ := dropWhile_is_drop (· == 42) r
+      have hlen : y.length + 1 ≤ r.length := by
+        have := congrArg List.length hx
+        simp at this
+        have h2 := dropWhile_length_le (· == 42) r
+        omega
+      have hc : count42 y ≤ count42 r := by
+        have h1 : count42 (47 :: y) ≤ count42 r := by rw [← hx, hkx]; exact count42_drop r kx
+        have h2 : count42 (47 :: y) = count42 y := by simp [count42]
+        omega
+      have hcnt' : count42 r + 2 < 64 := by
+        have : count42 (42 :: 42 :: r) = count42 r + 2 := by rw [count42_cons42, count42_cons42]
+        unfold count42 at this ⊢
+        omega
+      unfold C36.wildmatch Spec.C36.wildmatch matchRecursive RECURSION_LIMIT
+      have h := go_rel_lead m hpm (42 :: 42 :: r).length 63 (42 :: 42 :: r) t r y rfl hx hok ht hds
+        (by simp; omega) (by omega)
+      simp only [Iter.ofSlice]
+      rcases h with h | ⟨h1, h2⟩
+      · rw [h]; cases dowild (flagsOf m) ((42 :: 42 :: r).length + 1) none (42 :: 42 :: r) t <;> rfl
+      · rw [h1]
+        cases hg : go m ((42 :: 42 :: r).length + 1) 63 (42 :: 42 :: r) t ⟨0, 42 :: 42 :: r⟩ ⟨0, t⟩ <;>
+          first | rfl | exact absurd hg h2
+    · cases hds
+  · cases hds
+
+/-- What path mode covers now, as one predicate: no `**/` boundary at all, or exactly one and it is
+the leading one. -/
+def PathModeCovered (p : Bytes) : Prop := PathModeOk p ∨ LeadingDoubleStarOk p = true
+
+theorem pathmode_covered_eq (m : Mode) (hpm : m.noMatchSlash = true) (p t : Bytes) (hok : PatOk m p)
+    (hds : PathModeCovered p) (hcnt : (p.filter (· == 42)).length < 64) (ht : NoNul t) :
+    C36.wildmatch m p t = Spec.C36.wildmatch (flagsOf m) p t := by
+  rcases hds with h | h
+  · exact pathmode_eq m hpm p t hok h hcnt ht
+  · exact pathmode_leading_eq m hpm p t hok h hcnt ht
+
+-- non-vacuity: `**/foo` and `***/a*/[bc]**d/**` are covered; `a/**/b`, `**/a/**/b` and `**\/a` are not
+example : LeadingDoubleStarOk [42, 42, 47, 102, 111, 111] = true := by decide +kernel
+example : LeadingDoubleStarOk [42, 42, 42, 47, 97, 42, 47, 91, 98, 99, 93, 42, 42, 100, 47, 42, 42] = true := by
+  decide +kernel
+example : ¬ PathModeCovered [97, 47, 42, 42, 47, 98] := by
+  unfold PathModeCovered PathModeOk; decide +kernel
+example : ¬ PathModeCovered [42, 42, 47, 97, 47, 42, 42, 47, 98] := by
+  unfold PathModeCovered PathModeOk; decide +kernel
+example : ¬ PathModeCovered [42, 42, 92, 47, 97] := by
+  unfold PathModeCovered PathModeOk; decide +kernel
+example : C36.wildmatch ⟨true, false⟩ [42, 42, 47, 102, 111, 111] [97, 47, 98, 47, 102, 111, 111] = true := by
+  decide +kernel
+example : C36.wildmatch ⟨true, false⟩ [42, 42, 47, 102, 111, 111] [102, 111, 111] = true := by decide +kernel
 
 /-- ABORT_ALL stays suffix-sound for these patterns. -/
 theorem abort_all_sound_path (m : Mode) (n : Nat) (prev : Option UInt8) (p t : Bytes)
